@@ -165,6 +165,51 @@ pub fn run(fam: &str, t: &mut Toks) -> Option<R<String>> {
                 Err(e) => format!("err {e}"),
             })
         })()),
+        "conv" => Some((|| {
+            // the conversion helpers of essential_types::convert
+            use essential_types::convert as cv;
+            let kind = t.tok()?.to_string();
+            let r = match kind.as_str() {
+                "w2b" => hex_of(&cv::bytes_from_word(t.int()?)),
+                "b2w" => {
+                    let b = t.bytes()?;
+                    let a: [u8; 8] = b.try_into().map_err(|_| "len".to_string())?;
+                    cv::word_from_bytes(a).to_string()
+                }
+                "bs2w" => cv::word_from_bytes_slice(&t.bytes()?).to_string(),
+                "w4" => show_words(&cv::word_4_from_u8_32(t.bytes32()?)),
+                "w8" => {
+                    let b = t.bytes()?;
+                    let a: [u8; 64] = b.try_into().map_err(|_| "len".to_string())?;
+                    show_words(&cv::word_8_from_u8_64(a))
+                }
+                "u32" => {
+                    let w = t.words()?;
+                    let a: [i64; 4] = w.try_into().map_err(|_| "len".to_string())?;
+                    hex_of(&cv::u8_32_from_word_4(a))
+                }
+                "u64" => {
+                    let w = t.words()?;
+                    let a: [i64; 8] = w.try_into().map_err(|_| "len".to_string())?;
+                    hex_of(&cv::u8_64_from_word_8(a))
+                }
+                "hex" => format!("s{}", cv::hex_str_from_words(&t.words()?)),
+                "unhex" => {
+                    let s = t.tok()?;
+                    match cv::words_from_hex_str(&s[1..]) {
+                        Ok(ws) => format!("ok {}", show_words(&ws)),
+                        Err(_) => "err".into(),
+                    }
+                }
+                "bool" => match cv::bool_from_word(t.int()?) {
+                    Some(b) => format!("some {b}"),
+                    None => "none".into(),
+                },
+                _ => return Err("kind".into()),
+            };
+            t.done()?;
+            Ok(r)
+        })()),
         "pcdec" => Some((|| {
             // decoding postcard bytes back (ok value / err)
             let kind = t.tok()?.to_string();
